@@ -283,7 +283,7 @@ func runC10(c c10Case) (res c10Result) {
 		a2 = st.L2.Accepts()
 	}
 	cl := wire.NewClient(st.Dial(c.Port), c.Binary)
-	cl.Timeout = 10 * time.Second
+	cl.Timeout = hangBound()
 	defer cl.Close()
 	waitAccepts(st.L1, a1+1)
 	connL1, connL2 := st.L1.Accepts()-1, -1
@@ -326,7 +326,8 @@ func runC10(c c10Case) (res c10Result) {
 		if err != nil {
 			var dump [1 << 16]byte
 			n := runtime.Stack(dump[:], true)
-			return fail("a", "command %d (%s) was not answered and the connection not closed within 10s; goroutines:\n%s", i, cmd, dump[:n])
+			noteHang()
+			return fail("a", "command %d (%s) was not answered and the connection not closed within %v; goroutines:\n%s", i, cmd, cl.Timeout, dump[:n])
 		}
 		if len(o.Problems) > 0 {
 			return fail("a", "command %d (%s): malformed or unattributable reply: %v (trace %v)", i, cmd, o.Problems, o.Trace)
